@@ -20,6 +20,8 @@ def monitor(case, il, sl):
     if v:
         return v
     rr = refrun.RefRun(tr)
+    if monitors.stale_closeok(tr, rr):
+        return None      # a crossing close with id reuse (known finding D11, owned by C04/C09)
     v = refmon.check_no_misdelivery(tr)
     if v:
         return (v[0], "c03-misdelivery")
